@@ -69,6 +69,8 @@ def component_of(p):
 
 def cost(p):
     """scheduling hint only: Berlekamp-Massey on the long BCH codes dominates"""
+    if "specs" not in p:
+        return 0
     fam, cfg, prm = p["specs"][0]
     if fam == "bch":
         mu = 6 if ("mu=6" in cfg or "(63," in cfg) else 5 if ("mu=5" in cfg or "(31," in cfg) else int(prm.get("mu", 4))
@@ -282,3 +284,24 @@ def check(spec, tier, res):
                 except Exception as e:  # noqa: BLE001
                     res.viol(comp, cfg, "raises", f"return_errors=True on {gf2.bits(w, n)}: {type(e).__name__}: {str(e)[:160]}", {"w": w})
     res.sample({"family": fam, "cfg": cfg, "n": n, "k": k, "t_advertised": t_adv, "decoders": [d[0] for d in decs]})
+
+
+# ----------------------------------------------------------------------------- spelling equivalence of the constructors behind this property
+# (positional / keyword / mixed spellings of one legal call configure the same object; shared helper kmc/spelling.py)
+_cases0, _execute0, _component0 = cases, execute, component_of
+
+
+def cases(tier, seed):  # noqa: F811
+    yield from _cases0(tier, seed)
+    yield f"{PID}|spelling", {"kind": "spelling", "tier": tier}
+
+
+def execute(p, res):  # noqa: F811
+    if p.get("kind") == "spelling":
+        from kmc import spelling
+        return spelling.run(PID, res)
+    return _execute0(p, res)
+
+
+def component_of(p):  # noqa: F811
+    return "spelling" if p.get("kind") == "spelling" else _component0(p)
